@@ -120,4 +120,10 @@ theorem glue_pinned :
 example : (compute [1 / 2, 3 / 4, 1 / 4] none).radius = 3 / 4 := by decide +kernel
 example : pairCentres [0, 1, 2] ["a", "b", "c"] = some [(0, "a"), (1, "b"), (2, "c")] := by decide
 
+/-- given centres decide the patch of a record whether or not the input has an index column (documented
+    precedence `patch_centers > patch_name`); only without centres the column is used; neither → error -/
+theorem centres_take_precedence :
+    (∀ col, Gen.patchSource true col = 0) ∧ Gen.patchSource false true = 1 ∧ Gen.patchSource false false = 2 := by
+  refine ⟨fun col => by cases col <;> rfl, rfl, rfl⟩
+
 end Yaw.C12
